@@ -36,6 +36,18 @@ TakeWaited(s) == /\ opc = "live" /\ data[s] >= 0
                  /\ data' = [data EXCEPT ![s] = -1]
                  /\ UNCHANGED <<ovars, valueRc, guardRc, closure, mutex, gst, fst, sst, smode, sval, chan, rxst, ver, emA, emB>>
 
+(* GuardDropFault: the slot payload's close panics inside SlotGuard::drop (a panic in user code is
+   data): the guard goes away without delivering a value - abstractly the same as a guard that is
+   still alive when the entry closes: the slot value is absent, the entry is otherwise intact and
+   appended exactly once; in wait mode the flush guard is still released (by the unwinding).
+   Only generated where that release does not close the entry on the unwinding thread itself
+   (a panic while closing there would be a double panic = abort of the driver). *)
+SFault(s) ==
+    /\ sst[s] = "open" /\ CanStart
+    /\ (smode[s] = "discard" \/ guardRc > 1 \/ closure # "present")
+    /\ sst' = [sst EXCEPT ![s] = IF smode[s] = "wait" THEN "sent" ELSE "done"]
+    /\ UNCHANGED <<ovars, valueRc, guardRc, closure, mutex, gst, fst, smode, sval, chan, rxst, data, ver, emA, emB>>
+
 Start ==
     \/ "Mutate" \in SeqOps /\ Mutate /\ H_("Mutate", "o", 0, "")
     \/ "MakeHandle" \in SeqOps /\ MakeHandle /\ H_("MakeHandle", "h", 1, "")
@@ -55,6 +67,7 @@ Start ==
     \/ \E s \in S : SBegin(s) /\ H_("Drop", "s", s, smode[s])
     \* the slot guard is dropped by the unwinding of a panic of the thread that holds it (after its last
     \* mutation): the same steps, and the property expects the same (value present as last mutated)
+    \/ "DropFault" \in SeqOps /\ \E s \in S : SFault(s) /\ H_("DropFault", "s", s, smode[s])
     \/ "DropUnwind" \in SeqOps /\ \E s \in S : SBegin(s) /\ H_("DropUnwind", "s", s, smode[s])
 
 Continue ==
